@@ -387,10 +387,36 @@ func otherWriters(a *ssa.Alloc, allowed map[string]bool) string {
 
 // copiedFrom tells whether on path v there is a call copy(slice(dst), src).
 func copiedFrom(v paths.VPath, dst, src string) bool {
-	for _, c := range v.Calls() {
-		ct := v.Term(c)
-		if ct.Name == "builtin.copy" && len(ct.Args) == 2 && ct.Args[0].String() == "slice("+dst+",_,_,_)" && ct.Args[1].String() == src {
-			return true
+	return copiedFromDepth(v, dst, src, 0)
+}
+
+func copiedFromDepth(v paths.VPath, dst, src string, depth int) bool {
+	found := false
+	var via []string
+	v.Path.InstrsIn(func(in ssa.Instruction, c *paths.Ctx) {
+		switch t := in.(type) {
+		case *ssa.Call:
+			ct := c.Term(t)
+			if ct != nil && ct.Name == "builtin.copy" && len(ct.Args) == 2 && ct.Args[0].String() == "slice("+dst+",_,_,_)" && ct.Args[1].String() == src {
+				found = true
+			}
+		case *ssa.Store:
+			// the array is assigned as a whole from another array (the result of a helper that made the copy)
+			if at := c.Term(t.Addr); at != nil && at.String() == dst {
+				if val := c.Term(t.Val); val != nil && val.Op == "load" && len(val.Args) == 1 && val.Args[0].Op == "alloc" {
+					via = append(via, val.Args[0].String())
+				}
+			}
+		}
+	})
+	if found {
+		return true
+	}
+	if depth < 2 {
+		for _, h := range via {
+			if copiedFromDepth(v, h, src, depth+1) {
+				return true
+			}
 		}
 	}
 	return false
